@@ -51,8 +51,8 @@ type scCase struct {
 	Seed             uint64
 	Cause            string
 	Timing           string // handshake, transfer, idle
-	Blocked          [2][]string // parked calls on client, server
-	Accept           bool   // a second Listener.Accept is parked
+	Blocked          [2][]string // parked calls on client, server; a kind may occur 1-4 times: that many goroutines are parked in it
+	Accept           int    // further Listener.Accept calls parked besides the first one (0-3)
 	DropClose        int    // datagrams of the closing endpoint dropped from the cause on
 	RTT              time.Duration
 	CliIdle, SrvIdle time.Duration
@@ -64,7 +64,7 @@ type scCase struct {
 }
 
 func (c scCase) String() string {
-	return fmt.Sprintf("cause=%s timing=%s blocked(c)=%v blocked(s)=%v accept=%v dropclose=%d rtt=%v idle(c/s)=%v/%v ka(c/s)=%v/%v client=%s code=%d at=%v peertalks=%v seed=%d",
+	return fmt.Sprintf("cause=%s timing=%s blocked(c)=%v blocked(s)=%v accept=%d dropclose=%d rtt=%v idle(c/s)=%v/%v ka(c/s)=%v/%v client=%s code=%d at=%v peertalks=%v seed=%d",
 		c.Cause, c.Timing, c.Blocked[0], c.Blocked[1], c.Accept, c.DropClose, c.RTT, c.CliIdle, c.SrvIdle, c.CliKA, c.SrvKA, c.Client, c.Code, c.At, c.PeerTalks, c.Seed)
 }
 
@@ -99,11 +99,24 @@ func genSimCloseCase(r *u.Rng) scCase {
 	for side := 0; side < 2; side++ {
 		for _, k := range scCalls {
 			if r.Chance(1, 2) {
-				c.Blocked[side] = append(c.Blocked[side], k)
+				// 1-4 goroutines parked in the same call (Read: on different streams, at most 3; Write: one)
+				n := 1
+				if r.Chance(1, 2) {
+					n = r.Range(2, 4)
+				}
+				if k == "Read" {
+					n = min(n, 3)
+				}
+				if k == "Write" {
+					n = 1
+				}
+				for j := 0; j < n; j++ {
+					c.Blocked[side] = append(c.Blocked[side], k)
+				}
 			}
 		}
 	}
-	c.Accept = r.Bool()
+	c.Accept = r.Intn(4)
 	c.Timing = []string{"idle", "transfer"}[r.Intn(2)]
 	c.PeerTalks = r.Bool()
 	switch c.Cause {
@@ -163,6 +176,7 @@ type scSide struct {
 	conn  *quic.Conn
 	calls []*scCall
 	s1    *quic.Stream // stream for Read (and later calls)
+	rs    []*quic.Stream // streams for parked Reads (rs[0] == s1)
 	s2    *quic.Stream // stream for the blocked Write
 	start time.Time
 }
@@ -179,6 +193,15 @@ func (s *scSide) park(name string, f func() (int, error)) *scCall {
 		s.mu.Unlock()
 	}()
 	return cl
+}
+
+func cnt(l []string, x string) (n int) {
+	for _, y := range l {
+		if x == y {
+			n++
+		}
+	}
+	return
 }
 
 func has(l []string, x string) bool {
@@ -219,7 +242,7 @@ func runOneSimClose(c scCase) (fails []monFail, info string) {
 		resetKey := quic.StatelessResetKey{1, 2, 3, 4, 5, 6, 7, 8, 9}
 		srvConf := &quic.Config{EnableDatagrams: true, MaxIdleTimeout: c.SrvIdle, KeepAlivePeriod: c.SrvKA,
 			InitialStreamReceiveWindow: 16384, MaxStreamReceiveWindow: 16384, InitialConnectionReceiveWindow: 1 << 20, MaxConnectionReceiveWindow: 1 << 20,
-			MaxIncomingStreams: 3, MaxIncomingUniStreams: 1}
+			MaxIncomingStreams: int64(2 + max(1, cnt(c.Blocked[0], "Read"), cnt(c.Blocked[1], "Read"))), MaxIncomingUniStreams: 1}
 		cliConf := &quic.Config{EnableDatagrams: true, MaxIdleTimeout: c.CliIdle, KeepAlivePeriod: c.CliKA,
 			InitialStreamReceiveWindow: 16384, MaxStreamReceiveWindow: 16384, InitialConnectionReceiveWindow: 1 << 20, MaxConnectionReceiveWindow: 1 << 20,
 			MaxIncomingStreams: -1, MaxIncomingUniStreams: -1}
@@ -318,10 +341,10 @@ func runOneSimClose(c scCase) (fails []monFail, info string) {
 				conn, err := e.Dial(dctx)
 				dch <- dres{conn, err, time.Since(e.Start)}
 			}()
-			var acc2 *scCall
-			if c.Accept {
-				// (the first Accept is parked as well; this is a second, concurrent one)
-				acc2 = ss.park("Accept", func() (int, error) { _, err := e.Ln.Accept(ctx); return 0, err })
+			var accs []*scCall
+			for k := 0; k < c.Accept; k++ {
+				// (the first Accept is parked as well; these are further, concurrent ones)
+				accs = append(accs, ss.park("Accept", func() (int, error) { _, err := e.Ln.Accept(ctx); return 0, err }))
 			}
 			time.Sleep(c.At)
 			synctest.Wait()
@@ -430,10 +453,10 @@ func runOneSimClose(c scCase) (fails []monFail, info string) {
 				default:
 					fail("simclose/unblock/Accept", "Accept still parked after "+c.Cause)
 				}
-				if acc2 != nil {
+				for k, ac := range accs {
 					ss.mu.Lock()
-					if !acc2.done {
-						fail("simclose/unblock/Accept", "second Accept still parked after "+c.Cause)
+					if !ac.done {
+						fail("simclose/unblock/Accept", fmt.Sprintf("Accept #%d of %d still parked after %s", k+2, len(accs)+1, c.Cause))
 					}
 					ss.mu.Unlock()
 				}
@@ -508,8 +531,14 @@ func runOneSimClose(c scCase) (fails []monFail, info string) {
 			return s, p, nil
 		}
 		var s3c, s3s *quic.Stream
-		cs.s1, ss.s1, err = mk()
+		// one stream per parked Read (a stream has one reader), the first one is also used for later calls
+		for k := 0; k < max(1, cnt(c.Blocked[0], "Read"), cnt(c.Blocked[1], "Read")) && err == nil; k++ {
+			var a, b *quic.Stream
+			a, b, err = mk()
+			cs.rs, ss.rs = append(cs.rs, a), append(ss.rs, b)
+		}
 		if err == nil {
+			cs.s1, ss.s1 = cs.rs[0], ss.rs[0]
 			cs.s2, ss.s2, err = mk()
 		}
 		if err == nil {
@@ -522,19 +551,20 @@ func runOneSimClose(c scCase) (fails []monFail, info string) {
 		for i, sd := range sides {
 			sd := sd
 			bl := c.Blocked[i]
-			if has(bl, "Read") {
-				sd.park("Read", func() (int, error) { return sd.s1.Read(make([]byte, 100)) })
+			for k := 0; k < cnt(bl, "Read"); k++ {
+				str := sd.rs[k]
+				sd.park("Read", func() (int, error) { return str.Read(make([]byte, 100)) })
 			}
 			if has(bl, "Write") {
 				sd.park("Write", func() (int, error) { return sd.s2.Write(make([]byte, 100000)) })
 			}
-			if has(bl, "AcceptStream") {
+			for k := 0; k < cnt(bl, "AcceptStream"); k++ {
 				sd.park("AcceptStream", func() (int, error) { _, err := sd.conn.AcceptStream(ctx); return 0, err })
 			}
-			if has(bl, "AcceptUniStream") {
+			for k := 0; k < cnt(bl, "AcceptUniStream"); k++ {
 				sd.park("AcceptUniStream", func() (int, error) { _, err := sd.conn.AcceptUniStream(ctx); return 0, err })
 			}
-			if has(bl, "OpenStreamSync") {
+			for k := 0; k < cnt(bl, "OpenStreamSync"); k++ {
 				sd.park("OpenStreamSync", func() (int, error) { _, err := sd.conn.OpenStreamSync(ctx); return 0, err })
 			}
 			if has(bl, "OpenUniStreamSync") {
@@ -543,15 +573,17 @@ func runOneSimClose(c scCase) (fails []monFail, info string) {
 						us.Write([]byte("x"))
 					}
 				}
-				sd.park("OpenUniStreamSync", func() (int, error) { _, err := sd.conn.OpenUniStreamSync(ctx); return 0, err })
+				for k := 0; k < cnt(bl, "OpenUniStreamSync"); k++ {
+					sd.park("OpenUniStreamSync", func() (int, error) { _, err := sd.conn.OpenUniStreamSync(ctx); return 0, err })
+				}
 			}
-			if has(bl, "ReceiveDatagram") {
+			for k := 0; k < cnt(bl, "ReceiveDatagram"); k++ {
 				sd.park("ReceiveDatagram", func() (int, error) { _, err := sd.conn.ReceiveDatagram(ctx); return 0, err })
 			}
 		}
-		var acc2 *scCall
-		if c.Accept {
-			acc2 = ss.park("Accept", func() (int, error) { _, err := e.Ln.Accept(ctx); return 0, err })
+		var accs []*scCall
+		for k := 0; k < c.Accept; k++ {
+			accs = append(accs, ss.park("Accept", func() (int, error) { _, err := e.Ln.Accept(ctx); return 0, err }))
 		}
 		if c.Timing == "transfer" {
 			go func() { s3c.Write(make([]byte, 600000)); s3c.Close() }()
@@ -721,12 +753,12 @@ func runOneSimClose(c scCase) (fails []monFail, info string) {
 			}
 			if c.Cause == "listener-close" {
 				synctest.Wait()
-				if acc2 != nil {
+				for k, ac := range accs {
 					ss.mu.Lock()
-					if !acc2.done {
-						fail("simclose/unblock/Accept", "Accept still parked after Listener.Close")
-					} else if !errors.Is(acc2.err, quic.ErrServerClosed) {
-						fail("simclose/expected-cause/Accept", fmt.Sprintf("Accept returned %v after Listener.Close", acc2.err))
+					if !ac.done {
+						fail("simclose/unblock/Accept", fmt.Sprintf("Accept #%d of %d still parked after Listener.Close", k+1, len(accs)))
+					} else if !errors.Is(ac.err, quic.ErrServerClosed) {
+						fail("simclose/expected-cause/Accept", fmt.Sprintf("Accept returned %v after Listener.Close", ac.err))
 					}
 					ss.mu.Unlock()
 				}
@@ -767,6 +799,18 @@ func runOneSimClose(c scCase) (fails []monFail, info string) {
 		}
 		synctest.Wait()
 		tEnd := time.Since(e.Start)
+		if c.Cause == "srv-transport-close" || c.Cause == "stateless-reset" {
+			// closing the transport closes its listener: every parked Accept returns
+			for k, ac := range accs {
+				ss.mu.Lock()
+				if !ac.done {
+					fail("simclose/unblock/Accept", fmt.Sprintf("Accept #%d of %d still parked after Transport.Close", k+1, len(accs)))
+				} else if !errors.Is(ac.err, quic.ErrTransportClosed) {
+					fail("simclose/expected-cause/Accept", fmt.Sprintf("Accept returned %v after Transport.Close", ac.err))
+				}
+				ss.mu.Unlock()
+			}
+		}
 
 		// ---- monitors: unblock + cause
 		for i, sd := range sides {
@@ -781,7 +825,16 @@ func runOneSimClose(c scCase) (fails []monFail, info string) {
 					continue
 				}
 				if !cl.done {
-					fail("simclose/unblock/"+cl.name, fmt.Sprintf("%s %s still parked %v after the connection closed with %v", sd.name, cl.name, tEnd-doneAt[i], cause))
+					total, stuck := 0, 0
+					for _, o := range sd.calls {
+						if o.name == cl.name {
+							total++
+							if !o.done {
+								stuck++
+							}
+						}
+					}
+					fail("simclose/unblock/"+cl.name, fmt.Sprintf("%s: %d of %d goroutines parked in %s still parked %v after the connection closed with %v", sd.name, stuck, total, cl.name, tEnd-doneAt[i], cause))
 					continue
 				}
 				if (first == 0 || cl.at < first) && !(cl.name == "ReceiveDatagram" && cl.err == nil) {
